@@ -323,9 +323,36 @@ class SymPattern:
                 pos += 1
         return SymStr(out)
 
+    def _iter(self, string):
+        s = tosym(string).c
+        pos, n, last_end = 0, len(s), -1
+        while pos <= n:
+            r = self.match_at(s, pos)
+            if r is not None and not (r[0] == pos and pos == last_end):
+                end, g = r
+                yield SymMatch(s, pos, end, g, self)
+                last_end = end
+                pos = end if end > pos else pos + 1
+            else:
+                pos += 1
+
+    @guard
+    def finditer(self, string):
+        return iter(list(self._iter(string)))
+
     @guard
     def findall(self, string):
-        raise Unsupported('findall')
+        out = []
+        for m in self._iter(string):
+            if self.ngroups == 0:
+                out.append(m.group(0))
+            elif self.ngroups == 1:
+                g = m.group(1)
+                out.append(g if g is not None else SymStr([]))
+            else:
+                out.append(tuple(g if g is not None else SymStr([])
+                                 for g in m.groups()))
+        return out
 
     @guard
     def split(self, string, maxsplit=0):
@@ -439,3 +466,9 @@ class ReModule:
 
     def sub(self, pat, repl, string, count=0, flags=0):
         return self._c(pat, flags).sub(repl, string, count)
+
+    def findall(self, pat, string, flags=0):
+        return self._c(pat, flags).findall(string)
+
+    def finditer(self, pat, string, flags=0):
+        return self._c(pat, flags).finditer(string)
